@@ -196,6 +196,35 @@ def rule_r4(ctx):
                 ctx.r.ok(rid, "stamped when bytes were sent", a.loc)
             else:
                 ctx.r.violation(rid, key_of(a.func, None, "stamp-send-guard"), "the send stamp is not tied to 'bytes were sent'", a.loc)
+            # ... and no way out of the flush skips it once something was sent: a partial send to a slow reader is activity
+            sendp = lambda c: dotted(c.func) == "self.send"  # noqa: E731
+            flags = {x.id for x in ast.walk(a.func.node) if isinstance(x, ast.Name) and local_derives_from_call(a.func, x.id, sendp) is True}
+            accs = [x for x in g.nodes if x.kind == "stmt" and ((isinstance(x.ast, ast.AugAssign) and isinstance(x.ast.target, ast.Name) and x.ast.target.id in flags)
+                                                             or (isinstance(x.ast, ast.Assign) and any(isinstance(t, ast.Name) and t.id in flags for t in x.ast.targets) and isinstance(x.ast.value, ast.BinOp) and isinstance(x.ast.value.op, ast.Add)))]
+            if not accs:
+                raise AnalysisError("anchor vanished: the sent-bytes accumulation in _flush_some")
+            for x in accs:
+                # once a truthy amount was added the flag is truthy: the false outcome of a later `if <flag>` is not a way out
+                v = x.ast.value
+                positive = isinstance(x.ast, ast.AugAssign) and isinstance(x.ast.op, ast.Add) and isinstance(v, ast.Name) and any(pol and isinstance(t, ast.Name) and t.id == v.id for (t, pol) in guards_of(g, x))
+                accn = {x.ast.target.id if isinstance(x.ast, ast.AugAssign) else x.ast.targets[0].id}
+
+                def _unbool(e):
+                    return e.args[0] if isinstance(e, ast.Call) and dotted(e.func) == "bool" and len(e.args) == 1 else e
+                for m in sorted(flags - accn):  # plain copies of the accumulator: flushed = bool(sent)
+                    bs = [y for y in ast.walk(a.func.node) if isinstance(y, ast.Assign) and any(isinstance(t, ast.Name) and t.id == m for t in y.targets)]
+                    if bs and all(isinstance(_unbool(y.value), ast.Name) and _unbool(y.value).id in accn for y in bs):
+                        accn.add(m)
+
+                def _flag(e):
+                    e = _unbool(e)
+                    return isinstance(e, ast.Name) and e.id in accn
+                dead = [b for b in g.nodes if b.kind == "branch" and b.polarity is False and _flag(b.ast)] if positive else []
+                pth = g.path(x, g.exit, avoid=nodes + dead, follow_exc=False)
+                if pth is None:
+                    ctx.r.ok(rid, "after `%s` every normal way out of the flush stamps the activity" % norm(x.ast), a.func.loc(x.ast))
+                else:
+                    ctx.r.violation(rid, key_of(a.func, None, "stamp-send-skipped"), "_flush_some can return after sending bytes without stamping last_activity (%s): a connection that keeps sending to a slow reader looks idle and is reaped in mid-transfer" % g.describe_path(pth), a.func.loc(x.ast))
         if fn == "service":
             if nodes and all(g.path(g.entry, g.exit, avoid=[nd], follow_exc=False) is None for nd in nodes):
                 ctx.r.ok(rid, "every normal end of service() stamps the activity", a.loc)
